@@ -47,6 +47,7 @@ Check(ev) ==
     [] ev.ev = "hstart" /\ InTags(ev.c) /\ connOf[ev.c] # 0 /\ connOf[ev.c] # ev.conn -> "C09_ConnectionIDStable"
     [] ev.ev = "hstart" /\ InTags(ev.c) /\ (\E d \in Tags : d # ev.c /\ connOf[d] = ev.conn) -> "C09_ConnectionIDUnique"
     [] ev.ev = "hunbind" /\ InTags(ev.c) /\ connOf[ev.c] # 0 /\ connOf[ev.c] # ev.conn -> "C09_ConnectionIDStable"
+    [] ev.ev = "hend" /\ InTags(ev.c) /\ connOf[ev.c] # 0 /\ connOf[ev.c] # ev.conn -> "C09_ConnectionIDStable"     \* asked again when the handler returns
     [] ev.ev = "eof" /\ ev.held # <<>> -> "C08_SocketClosedOnlyAfterHandlersReturned"
     [] ev.ev = "hstart" /\ InTags(ev.c) /\ eofSeen[ev.c] -> "C08_SocketClosedOnlyAfterHandlersReturned"     \* a handler starts on a connection the server already closed
     [] ev.ev = "hend" /\ ev.val = "err" /\ InTags(ev.c) /\ ~quiet[ev.c] -> "C08_SocketClosedOnlyAfterHandlersReturned"   \* its Write failed although the client is there and reading
